@@ -391,6 +391,20 @@ class Rotation(Quaternion):
 
         return R
 
+    @property
+    def unit(self) -> Rotation:
+        R = super().unit
+        R.improper = self.improper
+        return R
+
+    def transpose(self, *axes) -> Rotation:
+        R = super().transpose(*axes)
+        if R is not self:
+            if not len(axes):
+                axes = (1, 0)
+            R.improper = self.improper.transpose(*axes)
+        return R
+
     def flatten(self) -> Rotation:
         """Return a new rotation instance collapsed into one dimension.
 
